@@ -450,7 +450,7 @@ def euler_probe(pq, doc, gate_indices, modes):
         base = "numpy" if mode == "numpy" else ("tf" if mode.startswith("tf") else "jax")
         if base in out:
             continue
-        conn = make_connector(pq, base) or pq.NumpyConnector()
+        conn = make_connector(pq, base, fix_polar=(base == "tf")) or pq.NumpyConnector()
         worst = 0.0
         for i in gate_indices:
             P, A = _blocks_of(doc["ins"][i])
@@ -750,26 +750,19 @@ def _classify(ctx, pq, case, results, deviating, ambiguous, complex_gates, size,
             if bad is not None:
                 mech = "jax-loop-hafnian-non-finite"
                 note = " [piquasso._math.jax.hafnian.loop_hafnian_with_reduction called directly on the state's (A, b) with reduce_on=%s returns %s]" % bad
-        if sim == "purefock" and ambiguous:
-            # a deviation beyond the leaked amplitude: is the Euler decomposition of a degenerate gate itself wrong?
-            rec = euler_probe(pq, doc, ambiguous, ["numpy", m])
-            ctx.c["euler_probes"] += 1
-            if any(isinstance(v, float) and v > 1e-8 for v in rec.values()):
-                mech = "takagi-degenerate-branch-cut-connector-dependent"
-            note += " [euler() called directly on the degenerate gate(s): recomposition error %s]" % rec
-        if sim == "purefock" and m.startswith("tf") and complex_gates and polar_u is not None and \
-                mech != "takagi-degenerate-branch-cut-connector-dependent":
+        if sim == "purefock" and m.startswith("tf") and complex_gates and polar_u is not None:
+            # (1) is the deviation entirely explained by TensorflowConnector.polar?
             if "jax" not in results:
-                # TensorFlow shards run JAX only when it is needed to attribute a deviation (NumPy and JAX agree?)
+                # TensorFlow shards run JAX only when it is needed to describe a deviation (do NumPy and JAX agree?)
                 results["jax"] = run_mode(pq, doc, "jax", extra, ledger=ambiguous or None)
                 ctx.count("runs_by_sim_mode", "%s/jax" % sim)
-                if "error" not in results["jax"]:
-                    bj = 0.0
-                    if ambiguous and results["jax"]["b"] is not None and results["numpy"]["b"] is not None:
-                        bj = results["jax"]["b"] + results["numpy"]["b"]
-                    if _compare_obs(Ctx(), sim, "jax", results["numpy"]["obs"], results["jax"]["obs"], size, n_ins, bj, False):
-                        deviating = dict(deviating, jax=[("lazy", 0, 0, "")])
-            jax_ok = "error" not in results["jax"] and "jax" not in deviating
+            jax_note = "JAX run failed"
+            if "error" not in results["jax"]:
+                bj = 0.0
+                if ambiguous and results["jax"]["b"] is not None and results["numpy"]["b"] is not None:
+                    bj = results["jax"]["b"] + results["numpy"]["b"]
+                jax_dev = _compare_obs(Ctx(), sim, "jax", results["numpy"]["obs"], results["jax"]["obs"], size, n_ins, bj, False)
+                jax_note = "NumPy and JAX %s" % ("differ as well" if jax_dev else "agree")
             nonunitary = polar_u[0] > 1e-6
             ctx.c["corrected_polar_reruns"] += 1
             compiled = m == "tf-function-outer"
@@ -780,15 +773,21 @@ def _classify(ctx, pq, case, results, deviating, ambiguous, complex_gates, size,
                 bound = 0.0
                 if led and rer["b"] is not None and results["numpy"]["b"] is not None:
                     bound = rer["b"] + results["numpy"]["b"]
-                sub = Ctx()
-                left = _compare_obs(sub, sim, m, results["numpy"]["obs"], rer["obs"], size, n_ins, bound, compiled)
-                agree = not left
+                agree = not _compare_obs(Ctx(), sim, m, results["numpy"]["obs"], rer["obs"], size, n_ins, bound, compiled)
             if agree:
                 ctx.c["corrected_polar_agree"] += 1
-            note += " [connector.polar on the gate's symplectic matrix: |U U+ - 1| = %.2e, |P U - M| = %.1e; with the textbook polar the %s run %s]" % (
-                polar_u[0], polar_u[1], m, "agrees with NumPy" if agree else "still differs")
-            if nonunitary and agree and jax_ok:
+            note += " [connector.polar on the gate's symplectic matrix: |U U+ - 1| = %.2e, |P U - M| = %.1e; with the textbook polar the %s run %s; %s]" % (
+                polar_u[0], polar_u[1], m, "agrees with NumPy" if agree else "still differs", jax_note)
+            if nonunitary and agree:
                 mech = "tensorflow-polar-not-unitary"
+        if sim == "purefock" and ambiguous and mech != "tensorflow-polar-not-unitary":
+            # (2) a deviation beyond the leaked amplitude in a program with a degenerate gate: is the Euler decomposition of
+            # that gate itself wrong? (TensorFlow probed with the textbook polar, so that only Takagi / SVD / Schur / logm count)
+            rec = euler_probe(pq, doc, ambiguous, ["numpy", m])
+            ctx.c["euler_probes"] += 1
+            if any(isinstance(v, float) and v > 1e-8 for v in rec.values()):
+                mech = "takagi-degenerate-branch-cut-connector-dependent"
+            note += " [euler() called directly on the degenerate gate(s): recomposition error %s]" % rec
         ctx.viol(mech, "%s of %s differs between NumPy and %s: max |diff| = %.3e > tol %.3e (%s); %d observable(s) deviate: %s; program %s d=%d cutoff=%s%s" % (
             name, sim, m, dev, tol, detail, len(devs), sorted({x[0] for x in devs})[:6], prog, doc["d"], doc["config"].get("cutoff"), note),
             dict(case, failing_mode=m))
@@ -1014,12 +1013,13 @@ def plan(tier, seed):
 
     # budgets are CPU seconds of the shard process (coverage then does not depend on how busy the machine is);
     # a wall-clock cap keeps the shard below the watchdog
-    cpu, wall = (150, 600) if quick else (800, 2400)
-    add("purefock-tf", 3 if quick else 4, weight=3, count=300 if quick else 3000, cpu=cpu, wall=wall)
-    add("purefock-jax", 3 if quick else 4, count=300 if quick else 3000, cpu=cpu, wall=wall)
-    add("gaussian", 2 if quick else 4, count=300 if quick else 3000, cpu=cpu, wall=wall)
-    add("passive", 1 if quick else 2, count=500 if quick else 5000, cpu=cpu * 0.8, wall=wall)
-    add("fermionic", 1 if quick else 2, count=300 if quick else 3000, cpu=cpu * 0.8, wall=wall)
+    cpu, wall = (150, 600) if quick else (700, 2400)
+    # the same layout in both tiers (total weight 16 = one 16-core machine); thorough runs longer and on 3 shapes per shard
+    add("purefock-tf", 3, weight=3, count=300 if quick else 3000, cpu=cpu, wall=wall)
+    add("purefock-jax", 3, count=300 if quick else 3000, cpu=cpu, wall=wall)
+    add("gaussian", 2, count=300 if quick else 3000, cpu=cpu, wall=wall)
+    add("passive", 1, count=500 if quick else 4000, cpu=cpu * 0.8, wall=wall)
+    add("fermionic", 1, count=300 if quick else 3000, cpu=cpu * 0.8, wall=wall)
     return specs
 
 
